@@ -22,6 +22,18 @@ FLOORS = {
               "update_events": 60, "set_params_events": 40, "clone_events": 40},
     "thorough": {"distinct_nontrivial": 6000, "output_events_compared": 15000},
 }
+ANCHORS = [
+    "skchange.base.base_detector.BaseDetector.update",
+    "skchange.base.base_detector.BaseDetector._update",
+    "skchange.base.base_detector.BaseDetector.fit",
+    "skchange.base.base_interval_scorer.BaseIntervalScorer.fit",
+    "skchange.change_detectors.pelt.PELT._transform_scores",
+    "skchange.anomaly_detectors.capa.CAPA._transform_scores",
+    "skchange.anomaly_detectors.mvcapa.MVCAPA._transform_scores",
+    "skchange.anomaly_scores.from_cost.LocalAnomalyScore._fit",
+    "skchange.change_scores.from_cost.ChangeScore._fit",
+    "skchange.anomaly_detectors.anomalisers.StatThresholdAnomaliser._fit",
+]
 LEVEL = "exploration"
 RULE = (
     "random sequential call histories over a pool of 6-12 objects (7 detector classes from the zoo "
@@ -215,6 +227,7 @@ def history(ctx, seed):
                 if twins is None:
                     continue
                 ev += 1
+                ctx.case()  # one case = one output event compared with its twins
                 ctx.stat("output_events_compared")
                 for tname, t in twins:
                     tst, tval = call(t, "evaluate", orig.copy())
@@ -315,6 +328,7 @@ def history(ctx, seed):
                     ctx.stat("twin_build_failed")
                     continue
                 ev += 1
+                ctx.case()  # one case = one output event compared with its twins
                 ctx.stat("output_events_compared")
                 for tname, t in twins:
                     tst, tval = call(t, op, arg.copy(deep=True))
@@ -343,7 +357,7 @@ def history(ctx, seed):
 
 
 def exec_case(ctx, r):
-    ctx.case()
+    ctx.stat("histories")
     try:
         with time_limit(900):
             history(ctx, int(r["seed"]))
